@@ -21,6 +21,7 @@ import GV.Proofs.MapKeyInj
 import GV.Proofs.GoMapRefine
 import GV.Proofs.GoMapRange
 import GV.Proofs.GoMapRangeOnce
+import GV.Model.MapKeyHash
 
 namespace GV.Props.C15
 open GV.MapKey GV.GoMap GV.Spec.MapKey GV.Proofs.MapKeyStr GV.Proofs.MapKeyInj GV.Proofs.GoMapRefine
@@ -285,5 +286,95 @@ theorem seeded_unbound_counterexample :
     (rangeForm halfFs .unbound countAndDelete2 jm KSt.init 0).visited.length = 1 ∧
     (seededUnbound halfFs countAndDelete2 jm KSt.init 0).2.2 = 2 := by
   decide
+
+/-! ### unhashable dynamic key types panic: the comparability decision looks at ALL fields, the key only at non-blank ones -/
+
+section Hash
+open GV.Spec.GoComparable GV.MapKeyHash
+
+mutual
+/-- the prelude's `typ.comparable` is the Go specification's comparability, for every type of the language
+    (named, blank and embedded fields; arrays; slices, maps, funcs; nested to any depth) -/
+theorem typComparable_eq_spec : ∀ t : Ty, typComparable t = comparable t
+  | .int => rfl
+  | .str => rfl
+  | .iface => rfl
+  | .slice => rfl
+  | .map => rfl
+  | .func => rfl
+  | .arr _ e => by simp only [typComparable, comparable]; exact typComparable_eq_spec e
+  | .struct fs => by simp only [typComparable, comparable]; exact fieldsEvery_eq_spec fs
+theorem fieldsEvery_eq_spec : ∀ fs : Fields, fieldsEvery fs = allComparable fs
+  | .nil => rfl
+  | .cons _ t rest => by
+    simp only [fieldsEvery, allComparable, typComparable_eq_spec t, fieldsEvery_eq_spec rest]
+    cases comparable t <;> simp
+end
+
+theorem allComparable_iff : ∀ fs : Fields, allComparable fs = true ↔ ∀ p ∈ Fields.toList fs, comparable p.2 = true
+  | .nil => by simp [allComparable, Fields.toList]
+  | .cons k t rest => by
+    simp only [allComparable, Fields.toList, Bool.and_eq_true, List.mem_cons, allComparable_iff rest]
+    constructor
+    · rintro ⟨h1, h2⟩ p (rfl | hp)
+      · exact h1
+      · exact h2 p hp
+    · intro h
+      exact ⟨h (k, t) (Or.inl rfl), fun p hp => h p (Or.inr hp)⟩
+
+/-- a map operation whose interface key has a struct dynamic type panics ("hash of unhashable type") EXACTLY when
+    some field — named, BLANK or embedded — has an unhashable type; recursively through `unhashable_array_iff` and
+    this theorem for nested structs and arrays at any depth -/
+theorem unhashable_iff_some_field_unhashable (fs : Fields) :
+    ifaceKeyOutcome (.struct fs) = .panicUnhashable ↔ ∃ p ∈ Fields.toList fs, ifaceKeyOutcome p.2 = .panicUnhashable := by
+  have hO : ∀ t : Ty, ifaceKeyOutcome t = .panicUnhashable ↔ comparable t = false := by
+    intro t
+    simp only [ifaceKeyOutcome, typComparable_eq_spec]
+    cases comparable t <;> simp
+  rw [hO]
+  simp only [hO, comparable]
+  constructor
+  · intro h
+    apply Classical.byContradiction
+    intro hn
+    have : allComparable fs = true := (allComparable_iff fs).mpr (by
+      intro p hp
+      cases hc : comparable p.2 with
+      | true => rfl
+      | false => exact absurd ⟨p, hp, hc⟩ hn)
+    rw [this] at h; cases h
+  · rintro ⟨p, hp, hc⟩
+    cases ha : allComparable fs with
+    | false => rfl
+    | true => have := (allComparable_iff fs).mp ha p hp; rw [hc] at this; cases this
+
+theorem unhashable_array_iff (n : Nat) (e : Ty) :
+    ifaceKeyOutcome (.arr n e) = .panicUnhashable ↔ ifaceKeyOutcome e = .panicUnhashable := by
+  simp only [ifaceKeyOutcome, typComparable]
+  exact Iff.rfl
+
+/-- blank fields are skipped in the KEY (their values never matter) but NOT in the comparability decision -/
+theorem keyFor_ignores_blank_values_only (t : Ty) (rest : Fields) :
+    keyFields (.cons .blank t rest) = keyFields rest ∧
+    typComparable (.struct (.cons .blank t rest)) = (typComparable t && typComparable (.struct rest)) ∧
+    (comparable t = false → ifaceKeyOutcome (.struct (.cons .blank t rest)) = .panicUnhashable) := by
+  refine ⟨rfl, ?_, ?_⟩
+  · simp only [typComparable, fieldsEvery]; cases typComparable t <;> simp
+  · intro h
+    simp [ifaceKeyOutcome, typComparable, fieldsEvery, typComparable_eq_spec, h]
+
+/-- COUNTEREXAMPLE for the rejected variant ("the comparable getter uses the non-blank field list too"):
+    `struct{ _ []int; id int }`, `struct{ _ [0]func(); n int }` and a struct nesting the first are unhashable in Go and
+    in the code, but hashable for the variant -/
+theorem seeded_comparable_counterexample :
+    let tagged : Ty := .struct (.cons .blank .slice (.cons .named .int .nil))
+    let noCopy : Ty := .struct (.cons .blank (.arr 0 .func) (.cons .named .int .nil))
+    let wrapper : Ty := .struct (.cons .named .str (.cons .named tagged .nil))
+    (ifaceKeyOutcome tagged = .panicUnhashable ∧ seededComparable tagged = true) ∧
+    (ifaceKeyOutcome noCopy = .panicUnhashable ∧ seededComparable noCopy = true) ∧
+    (ifaceKeyOutcome wrapper = .panicUnhashable ∧ seededComparable wrapper = true) := by
+  decide
+
+end Hash
 
 end GV.Props.C15
